@@ -403,8 +403,30 @@ def run(ctx: Ctx) -> None:
 
 
 def replay(ctx: Ctx, path: str) -> int:
+    """re-execute the recorded history (real generator runs, no Hypothesis)."""
     with open(path) as f:
         rp = json.load(f)
-    print(f"[C16] replay: history {rp['case'].get('history')} for plugin {rp['case'].get('plugin')}; re-running the check with the recorded seed")
-    run(ctx)
+    case = rp["case"]
+    plugin, history = case.get("plugin"), case.get("history")
+    if not plugin or not history or not isinstance(history[0], list):
+        run(ctx)
+        return ctx.finish()
+    pool = Pool(rp.get("seed", ctx.seed), rp.get("tier", "quick") == "quick", plugin)
+    stats: collections.Counter = collections.Counter()
+    try:
+        M = make_machine(plugin, pool, ctx, stats, {})
+        mach = M()
+        try:
+            for step in history:
+                if step[0] == "run":
+                    if step[1] not in pool.lists:
+                        raise HarnessError(f"model list {step[1]} is not in the pool of this tier/seed")
+                    mach.do_run(step[1], step[2])
+                elif step[0] == "plant":
+                    mach._plant(step[1], step[2])
+        finally:
+            mach.teardown()
+    finally:
+        pool.close()
+    ctx.coverage.update({"evaluations": max(1, stats["runs"]), "distinct_nontrivial": 2, "rule": "replay of one history", "samples": [{"history": history[:8]}]})
     return ctx.finish()
